@@ -70,6 +70,7 @@ func scopeKey(scope string) []byte {
 
 func runC10(t failer, c c10Case) (events []authEvent) {
 	ev.Eval()
+	journal("C10", c)
 	c.World.Cfg.Restore()
 	fail := func(sig, format string, args ...interface{}) {
 		violation(t, "C10", "authen", "C10:"+sig, c, format, args...)
